@@ -214,8 +214,69 @@ var c18Swaps = [][2]string{
 	{"Tuple(String, Int64)", "Tuple(String, UInt8)"}, {"Int128", "UInt128"}, {"Bool", "UInt8"}, {"Nothing", "UInt8"},
 }
 
+// the same targets receive blocks whose enum definition changes from block to block (renumbered, renamed, extended):
+// each block's rows must come out with that block's own names
+func c18EnumRedefined(c *Ctx, r *Rng) {
+	R := c.R
+	defs := [][]string{
+		{"Enum8('a' = 1, 'b' = 2)", "Enum8('b' = 1, 'a' = 2, 'c' = 3)", "Enum8('a' = 1, 'b' = 2)"},
+		{"Enum16('x' = -300, 'y' = 300)", "Enum16('y' = -300, 'x' = 300)", "Enum16('x' = 1, 'y' = 2, 'z' = 1000)"},
+	}
+	for _, seq := range defs {
+		for _, wrap := range []string{"%s", "Array(%s)", "Nullable(%s)"} {
+			t0, err := parseCH(fmt.Sprintf(wrap, seq[0]))
+			if err != nil {
+				continue
+			}
+			target, err := newColumn(t0)
+			if err != nil {
+				continue
+			}
+			res := proto.Results{{Name: "e", Data: target}}
+			var hist []string
+			for bi, def := range seq {
+				t, err := parseCH(fmt.Sprintf(wrap, def))
+				if err != nil {
+					break
+				}
+				k := 0
+				cols, err := buildCols(r, 1, 4, genOpts{}, func() *TNode { k++; return t })
+				if err != nil {
+					break
+				}
+				cols[0].name = "e"
+				var buf proto.Buffer
+				blk := proto.Block{Columns: 1, Rows: 4}
+				if blk.EncodeRawBlock(&buf, 54460, inputOf(cols)) != nil {
+					break
+				}
+				hist = append(hist, t.CH)
+				cs := map[string]any{"target": t0.CH, "blocks": hist, "block": bi, "contents": cols[0].cn.ModelCol()}
+				R.Case(fmt.Sprintf("enum-redefined|%s|%d", t0.CH, bi), true)
+				R.Count("shape:enum-redefined")
+				var got proto.Block
+				var derr error
+				if p, msg := safely(func() { derr = got.DecodeRawBlock(proto.NewReader(bytes.NewReader(buf.Buf)), 54460, res) }); p {
+					R.Violate(Violation{Kind: "oracle", Key: "bind-panic", What: "DecodeRawBlock panicked: " + msg, Case: cs})
+					return
+				}
+				if derr != nil {
+					// enum definitions are mutually compatible: a refusal is not a violation of the binding rule, but nothing more can be checked
+					R.Count("compatible-but-rejected")
+					break
+				}
+				if e, sz := checkColumn(target, cols[0].cn); e != nil && !sz {
+					R.Violate(Violation{Kind: "oracle", Key: "bind-wrong-data", What: fmt.Sprintf("block %d (%s) bound to the target of %s: the target does not hold the block's rows: %v", bi, t.CH, t0.CH, e), Case: cs})
+					return
+				}
+			}
+		}
+	}
+}
+
 func runC18(c *Ctx) {
 	R := c.R
+	defer c18EnumRedefined(c, c.Rng.Fork())
 	R.Rule = "pairs (block schema, target list): equal, permuted, renamed, extra / missing columns, a type swapped for a look-alike (same wire width, parameter-only differences, decimal aliases around the precision bands, enum tables), blank target names, explicit ColAuto targets, zero-row header blocks with and without targets, and two-block sequences with a changed schema against the same targets. The expected verdict comes from the Lean model of the compatibility relation. non-trivial = not the identical schema; distinct by (shape, schema, targets)."
 	r := c.Rng
 	n := 150
